@@ -24,6 +24,17 @@ def main():
         if a.replay:
             return mod.replay(ctx, a.replay)
         mod.run(ctx)
+        # Source pins (tools/srcpin.py): when a file this property is anchored in differs from the tree the thorough tier was
+        # validated on and the seeded sample found nothing, the quick command goes on to the complete closed space.
+        if a.tier == "quick" and not ctx.violations and not os.environ.get("VERIF_NO_ESCALATE"):
+            import srcpin
+            hit = srcpin.affected(prop)
+            if hit:
+                print(f"ESCALATE property={prop}: {len(hit)} anchored source file(s) changed ({', '.join(hit[:4])}"
+                      f"{' …' if len(hit) > 4 else ''}); quick sample found nothing -> exploring the thorough space")
+                ctx = vlib.Ctx(prop, "thorough", seed)
+                ctx.escalated_from_quick = hit
+                mod.run(ctx)
     except vlib.MachineryError as e:
         print(f"MACHINERY-ERROR {prop}: {e}", file=sys.stderr)
         return 2
